@@ -12,10 +12,24 @@
     parseS_genS genS_injective global_rejected handler_name_rejected
     stmt_rewrites_exactly_globals stmt_rewritten_eq_freeGlobals stmt_rewriting_invertible
     stmt_bound_names_are_pythons class_body_rebinding_witness stmt_scopes_example
+    stmt_xform_supported stmt_pipeline_roundtrip stmt_pipeline_faithful
+    leaves_in_order leaves_in_order_supported leavesS_in_order leavesS_in_order_supported
+    leaves_in_order_after_rewriting leaves_need_domain
+    writer_is_lines code_is_rendered_lines indentation_read_back try_blank_line_example
+    unsupported_stmt_rejected py312_rejected py312_supported
+    char_lines_match_token_lines indentation_matches_token_lines indentation_read_back_supported
+    indentation_matches_token_lines_supported
 -/
 import Genshi.Lemmas.PyParseS5
 import Genshi.Lemmas.PyStmtSpec
 import Genshi.Lemmas.PyStmtUnxf
+import Genshi.Lemmas.PyStmtWF
+import Genshi.Lemmas.PyLeavesWF
+import Genshi.Lemmas.PyLayout
+import Genshi.Lemmas.PyGenOkS
+import Genshi.Lemmas.PyLayoutLines
+import Genshi.Lemmas.PyLayoutText
+import Genshi.Lemmas.PyLayoutAgree
 namespace Genshi.Props.C13
 open Genshi.Py Genshi.Gen
 
@@ -376,5 +390,258 @@ theorem class_body_rebinding_witness :
     scopeTree (xformS exClassDyn) = .node cs!"module" cs!"top" [] [.node cs!"class" cs!"C" [cs!"x"] []] ∧
     freeGlobals exClassDyn = .node cs!"module" cs!"top" [] [.node cs!"class" cs!"C" [] []] :=
   ⟨by decide +kernel, rfl, rfl⟩
+
+/-! ### the whole statement pipeline: transform, regenerate, read back -/
+
+/-- **The transformed program is again a supported program**: whatever the scope stack decides,
+    a name load is either kept or becomes `_lookup_name(__data__, 'x')` and every other node keeps
+    its class, its operator, its names and the shape of its fields — so every hypothesis of
+    `parseS_genS` holds for `xformS ss` again (all module bodies, any nesting). -/
+theorem stmt_xform_supported (ss : List PyStmt) (h : SupportedS ss) : SupportedS (xformS ss) :=
+  ⟨wfsl_xsB ss _ h.1, by rw [xformS, noHandlers_xsB]; exact h.2⟩
+
+/-- **End to end, without side hypotheses**: for every supported module body the generator
+    accepts what `TemplateASTTransformer` hands it and the source it writes reads back as exactly the
+    transformed statements (the text that is compiled has the abstract syntax of the rewritten tree). -/
+theorem stmt_pipeline_roundtrip (ss : List PyStmt) (h : SupportedS ss) :
+    ∃ lines, genModule (xformS ss) = some lines ∧ pyParseS lines = some (xformS ss) :=
+  parseS_genS (xformS ss) (stmt_xform_supported ss h)
+
+/-- … and undoing the documented name-lookup rewriting on what was read back gives the original
+    program: the property text at statement level ("regenerated into source whose abstract syntax
+    is identical to the original after the documented name-lookup rewriting"), for every supported
+    module body that does not itself call the reserved lookup helpers. -/
+theorem stmt_pipeline_faithful (ss : List PyStmt) (h : SupportedS ss) (hn : noLookupB ss = true) :
+    ∃ lines, genModule (xformS ss) = some lines ∧ (pyParseS lines).map unxfB = some ss := by
+  obtain ⟨lines, hg, hp⟩ := stmt_pipeline_roundtrip ss h
+  exact ⟨lines, hg, by rw [hp]; exact congrArg some (stmt_rewriting_invertible ss hn)⟩
+
+example : SupportedS (xformS exModule) := stmt_xform_supported _ exModule_supported
+example : pyParseS (genBody 0 (xformS exModule)) = some (xformS exModule) := rfl
+example : (pyParseS (genBody 0 (xformS exModule))).map unxfB = some exModule := rfl
+example : genBody 0 (xformS exModule) ≠ genBody 0 exModule := by decide +kernel
+example : ∃ lines, genModule (xformS exScopes) = some lines ∧ (pyParseS lines).map unxfB = some exScopes :=
+  ⟨genBody 0 (xformS exScopes), rfl, rfl⟩
+
+/-! ### no token is dropped (independent of the reader `pyParse`)
+
+`leaves` / `leavesB` (`Model/PyLeaves.lean`) list the leaf tokens of a tree in source order: every
+identifier, literal, operator and node / clause keyword, no punctuation.  They are plain
+recursions over the tree that do not mention `gen`. -/
+
+/-- **Every leaf token is written, in order** (expressions): the identifiers (names, attribute
+    names, keyword-argument names, parameter names), literals, operators and clause keywords of the
+    tree form a subsequence of the tokens the generator writes — for every tree whose literals are
+    parser-made and that has no attribute access on an integer literal; nothing else is assumed
+    (operators outside the tables, unsupported nodes and helper nodes in odd places included). -/
+theorem leaves_in_order (e : PyExpr) (h : leafOK e = true) : (leaves e).Sublist (gen e) :=
+  leaves_sub e h
+
+/-- in particular for every supported expression -/
+theorem leaves_in_order_supported (e : PyExpr) (h : Supported e) : (leaves e).Sublist (gen e) :=
+  leaves_sub e (wf_leafOK e h.1)
+
+/-- **Every leaf token is written, in order** (statements): decorators, `def` / `class` names,
+    parameters with annotations and defaults, return annotation, bases and class keywords, targets,
+    imported names and aliases (component by component), clause keywords (`else`, `except`,
+    `finally`, `from`, `as`, `in`) and all leaves of the embedded expressions form a subsequence of
+    the tokens of the written lines, at every indentation — for all bodies without `global` and
+    `except E as name` (whose names the generator writes as string literals: rejected). -/
+theorem leavesS_in_order (ss : List PyStmt) (ind : Nat) (h : leafOKB ss = true) :
+    (leavesB ss).Sublist (lineToks (genBody ind ss)) :=
+  leavesB_sub ss ind h
+
+/-- in particular for every supported module body, on the lines the generator really returns -/
+theorem leavesS_in_order_supported (ss : List PyStmt) (h : SupportedS ss) :
+    ∃ lines, genModule ss = some lines ∧ (leavesB ss).Sublist (lineToks lines) :=
+  ⟨genBody 0 ss, by simp [genModule, wfsl_genOk ss h.1], leavesB_sub ss 0 (wfsl_leafOKB ss h.1)⟩
+
+/-- … and through the whole pipeline: the leaves of the *transformed* program (every original
+    identifier either as a name or as the string argument of its `_lookup_name` call) are in the
+    source that is compiled -/
+theorem leaves_in_order_after_rewriting (ss : List PyStmt) (h : SupportedS ss) :
+    ∃ lines, genModule (xformS ss) = some lines ∧ (leavesB (xformS ss)).Sublist (lineToks lines) :=
+  leavesS_in_order_supported _ (stmt_xform_supported ss h)
+
+/-- the boundary of the domain: for `(1).real` (written `1.real`, rejected by the compiler) and
+    `global x` (written `global 'x'`, rejected) the leaves are *not* all written -/
+theorem leaves_need_domain :
+    ¬ (leaves (.attribute (.const ⟨.int, ['1']⟩) cs!"real")).Sublist (gen (.attribute (.const ⟨.int, ['1']⟩) cs!"real"))
+    ∧ ¬ (leavesB [.global_ [['x']]]).Sublist (lineToks (genBody 0 [.global_ [['x']]])) := by
+  constructor <;> decide
+
+example : leaves exLambda =
+    [kw cs!"lambda", .name ['p'], .name ['q'], .num ['2'], .name ['r'], .name ['s'], .name ['t'],
+     .name ['i'], kw cs!"for", .name ['i'], kw cs!"in", .name ['q'], kw cs!"if", .name ['i']] := rfl
+example : leaves exCall = [.name ['f'], .name ['a'], .name ['b'], .name ['k'], .name cs!"not", .name ['x'],
+    .op cs!"==", .name ['y'], .num ['1']] := rfl
+example : leafOK exCall = true ∧ leafOK exLambda = true ∧ leafOKB exModule = true := by decide
+example : (leavesB exModule).length = 79 := rfl
+example : (leavesB exModule).Sublist (lineToks (genBody 0 exModule)) := leavesS_in_order _ 0 (by decide)
+
+/-! ### character level: the writer (`_new_line`, `_write`, `_change_indent`) and the indentation
+
+Model `genStmtW` (`Model/PyLayout.lean`): the statement visitors as transformers of the writer state
+(`self.code`, `self.line`, `self.indent`), compared with `ASTCodeGenerator(tree).code` by exact
+string equality.  Abstraction `genStmtC`: physical lines (depth + text).  Reader `retok`: the
+indentation stack of CPython's tokenizer (compared with `tokenize` by the harness). -/
+
+/-- **The writer writes exactly the physical lines** `genBodyC`: from any writer state, visiting a
+    body leaves the state in which those lines have been started one after the other — the pending
+    line flushed with a newline, every line `4 * depth` blanks + text, the last one still open,
+    `self.indent` restored (all statements, any nesting). -/
+theorem writer_is_lines (ss : List PyStmt) (w : W) : genBodyW ss w = w.push (genBodyC w.indent ss) :=
+  genBodyW_eq ss w
+
+/-- `ASTCodeGenerator(Module(body)).code` is the rendering of those lines (a last line that is
+    whitespace only is dropped by `__init__`) -/
+theorem code_is_rendered_lines (body : List PyStmt) (hok : genOkBody body = true) (hne : genBodyC 0 body ≠ []) :
+    codeS body = some (renderT (trimLast (genBodyC 0 body))) :=
+  codeS_lines body hok hne
+
+/-- **INDENT / DEDENT structure.**  Splitting the generated string into physical lines and running
+    the tokenizer's indentation stack over it gives back exactly the non-blank lines the visitors
+    wrote, each at the depth of the generator's `self.indent` — for every module body and every
+    nesting depth; no `IndentationError`, and the whitespace-only line `visit_Try` leaves behind
+    opens or closes no block.  Hypothesis on the line texts only: no newline inside, no leading
+    whitespace (checked by `lineOKb`, decidable; the text → token step inside a line is tied by
+    the harness stream `retok-vs-tokenize`). -/
+theorem indentation_read_back (body : List PyStmt) (hok : genOkBody body = true) (hne : genBodyC 0 body ≠ [])
+    (hl : (genBodyC 0 body).all lineOKb = true) :
+    ∃ code, codeS body = some code ∧
+      retok code = some (((genBodyC 0 body).filter (fun l => !l.blank)).map fun l => (l.indent, l.text)) :=
+  retok_codeS body hok hne (fun l h => lineOK_of_b (List.all_eq_true.mp hl l h))
+
+/-- ```
+    def f():
+        try:
+            pass
+        except E:
+            pass
+        <- whitespace-only line written by visit_Try
+        return x
+    ``` -/
+def exTry : List PyStmt :=
+  [.functionDef ['f'] [] [] none [] none
+    [.try_ [.pass_] [.handler (some (.name ['E'])) none [.pass_]] [] [], .return_ (some (.name ['x']))] [] none false]
+
+theorem try_blank_line_example :
+    codeS exTry = some cs!"def f():\n    try:\n        pass\n    except E:\n        pass\n    \n    return x\n"
+    ∧ (codeS exTry).bind retok = some [(0, cs!"def f():"), (1, cs!"try:"), (2, cs!"pass"), (1, cs!"except E:"),
+        (2, cs!"pass"), (1, cs!"return x")] := by
+  constructor <;> decide +kernel
+
+example : (genBodyC 0 exModule).all lineOKb = true := by decide +kernel
+example : ((genBodyC 0 exModule).filter (fun l => !l.blank)).map (·.indent) = (genBody 0 exModule).map (·.indent) := by
+  decide +kernel
+example : ∃ code, codeS exModule = some code ∧
+    retok code = some (((genBodyC 0 exModule).filter (fun l => !l.blank)).map fun l => (l.indent, l.text)) :=
+  indentation_read_back exModule (by decide +kernel) (by decide +kernel) (by decide +kernel)
+
+/-! ### constructs of the running Python (3.12) the generator may meet -/
+
+/-- **Unsupported statements are rejected, not altered**: a statement class without a `visit_*`
+    method, an augmented assignment with an operator missing from the table, a relative import
+    without module name, or a rejected expression *anywhere* in a module body (at any nesting depth)
+    makes the generator raise — it never writes different lines for such a body. -/
+theorem unsupported_stmt_rejected (ss : List PyStmt) (h : rejectsB ss = true) : genModule ss = none := by
+  have : genOkBody ss = false := by
+    cases hg : genOkBody ss with
+    | false => rfl
+    | true => simp [genOkB_not_rejectsB ss hg] at h
+  simp [genModule, this]
+
+/-- The audit of the Python 3.12 syntax against the visitor set and the operator tables of the code
+    under test (regenerated on every run): assignment expressions, f-strings (`JoinedStr`,
+    `FormattedValue`; 3.14 `TemplateStr`), `await`, set displays / set and dict comprehensions,
+    `yield from`, `@`; `match`, `type X = …`, `except*`, `async def` / `async for` / `async with`,
+    annotated assignment, `nonlocal` have no visitor / no table entry — trees containing them are
+    rejected (`unsupported_rejected`, `unsupported_stmt_rejected` apply).  A visitor added to the
+    code under test for one of them breaks this theorem: the model then has to model it. -/
+theorem py312_rejected :
+    (∀ k ∈ [cs!"NamedExpr", cs!"JoinedStr", cs!"FormattedValue", cs!"TemplateStr", cs!"Interpolation", cs!"Await", cs!"Set",
+        cs!"SetComp", cs!"DictComp", cs!"YieldFrom"], rejects (.unsupported k) = true)
+    ∧ (∀ k ∈ [cs!"Match", cs!"TypeAlias", cs!"TryStar", cs!"AsyncFunctionDef", cs!"AsyncFor", cs!"AsyncWith", cs!"AnnAssign",
+        cs!"Nonlocal"], rejectsS (.unsupported k) = true)
+    ∧ rejects (.binOp (.name ['a']) cs!"MatMult" (.name ['b'])) = true
+    ∧ rejectsS (.augAssign (.name ['a']) cs!"MatMult" (.name ['b'])) = true
+    ∧ rejectsS (.importFrom none [(['x'], none)] 2) = true := by decide
+
+/-- `a[*b, c]`, `return *a, b` (star expressions in an index / `return` / `yield`: a `Tuple` with `Starred` elements,
+    written `a[(*b, c, )]`), positional-only parameters with defaults, and `async` comprehension clauses
+    are inside the supported syntax: regenerated and read back exactly. -/
+def exStarIndex : PyExpr := .subscript (.name ['a']) (.tuple [.starred (.name ['b']), .name ['c']])
+def exStarReturn : List PyStmt :=
+  [.functionDef ['f'] [.param ['p'] none (some two)] [] none [.param ['k'] none none] none
+    [.return_ (some (.tuple [.starred (.name ['a']), .name ['b']])),
+     .expr (.yield_ (some (.tuple [.name ['b'], .starred (.name ['a'])])))] [] none false]
+def exAsyncComp : PyExpr := .genExp (.name ['x']) [.comp (.name ['x']) (.name ['y']) [] true]
+
+theorem py312_supported :
+    pyParse (gen exStarIndex) = some exStarIndex ∧ pyParse (gen exAsyncComp) = some exAsyncComp
+    ∧ pyParseS (genBody 0 exStarReturn) = some exStarReturn
+    ∧ codeS exStarReturn = some cs!"def f(p=2, /, *, k):\n    return (*a, b, )\n    (yield (b, *a, ))\n" :=
+  ⟨rfl, rfl, rfl, by decide +kernel⟩
+
+/-- `a[*b]` in *original* source (PEP 646): a lone starred item is read as a one-element tuple, as CPython does
+    (found by the audit: the reader returned `Subscript(a, Starred(b))`; corrected in `trailersF`) -/
+example : pyParse [.name ['a'], tLB, tStar, .name ['b'], tRB] = some (.subscript (.name ['a']) (.tuple [.starred (.name ['b'])])) := rfl
+
+example : Supported exStarIndex := by
+  refine ⟨?_, rfl⟩
+  simp only [exStarIndex, WF, WFL]
+  exact ⟨by decide, rfl, ⟨⟨⟨by decide, rfl⟩, by decide, trivial⟩, rfl⟩, Or.inl rfl⟩
+example : Supported exAsyncComp := by
+  refine ⟨?_, rfl⟩
+  simp only [exAsyncComp, WF, WFL]
+  exact ⟨by decide, rfl, ⟨⟨by decide, rfl, by decide, rfl, trivial, rfl⟩, trivial⟩, by simp, rfl⟩
+example : genModule [.if_ (.name ['c']) [.unsupported cs!"Match"] []] = none := unsupported_stmt_rejected _ (by decide)
+
+/-! ### the character model and the token model agree on the line structure -/
+
+/-- the non-blank physical lines of the character model have the indentation sequence of the token-level
+    lines `genBody` (the abstraction `parseS_genS` is stated on) — for every body in which no expression
+    statement / assignment writes an empty text (`textOKB`, decidable) -/
+theorem char_lines_match_token_lines (ss : List PyStmt) (ind : Nat) (h : textOKB ss = true) :
+    (nbLines (genBodyC ind ss)).map (·.indent) = (genBody ind ss).map (·.indent) :=
+  indents_body ss ind h
+
+/-- hence: the depths CPython's line structure assigns to the generated string are the indentation
+    levels of the token-level lines, one logical line per `Line` -/
+theorem indentation_matches_token_lines (body : List PyStmt) (hok : genOkBody body = true) (hne : genBodyC 0 body ≠ [])
+    (hl : (genBodyC 0 body).all lineOKb = true) (ht : textOKB body = true) :
+    ∃ code ls, codeS body = some code ∧ retok code = some ls ∧ ls.map (·.1) = (genBody 0 body).map (·.indent) := by
+  obtain ⟨code, hc, hr⟩ := indentation_read_back body hok hne hl
+  refine ⟨code, _, hc, hr, ?_⟩
+  rw [← char_lines_match_token_lines body 0 ht]
+  simp [nbLines, List.map_map, Function.comp_def]
+
+example : textOKB exModule = true := by decide +kernel
+
+/-- **INDENT / DEDENT structure, hypothesis on the tree**: for every supported module body in which the
+    identifiers are non-empty and free of whitespace and the literal / operator / module-name texts are free of
+    newlines (`charsOKB`, decidable; true of every tree a parser produces), no written line contains a newline or
+    starts with whitespace (`linesOK_body`: two inductions over `genC`, one over the statements), so the
+    generated string reads back with the generator's nesting at every depth. -/
+theorem indentation_read_back_supported (body : List PyStmt) (h : SupportedS body) (hc : charsOKB body = true)
+    (hne : genBodyC 0 body ≠ []) :
+    ∃ code, codeS body = some code ∧
+      retok code = some (((genBodyC 0 body).filter (fun l => !l.blank)).map fun l => (l.indent, l.text)) :=
+  indentation_read_back body (wfsl_genOk body h.1) hne (linesOK_body body 0 h.1 hc)
+
+example : charsOKB exModule = true := by decide +kernel
+example : ∃ code, codeS exModule = some code ∧
+    retok code = some (((genBodyC 0 exModule).filter (fun l => !l.blank)).map fun l => (l.indent, l.text)) :=
+  indentation_read_back_supported exModule exModule_supported (by decide +kernel) (by decide +kernel)
+
+/-- … and the depths CPython's line structure assigns to the generated string are the indentation levels of the
+    token-level lines `genBody 0 body` (the lines `parseS_genS` reads), with hypotheses on the tree only -/
+theorem indentation_matches_token_lines_supported (body : List PyStmt) (h : SupportedS body) (hc : charsOKB body = true)
+    (hne : genBodyC 0 body ≠ []) :
+    ∃ code ls, codeS body = some code ∧ retok code = some ls ∧ ls.map (·.1) = (genBody 0 body).map (·.indent) :=
+  indentation_matches_token_lines body (wfsl_genOk body h.1) hne (linesOK_body body 0 h.1 hc) (textOKB_of body h.1 hc)
+
+example : ∃ code ls, codeS exModule = some code ∧ retok code = some ls ∧ ls.map (·.1) = (genBody 0 exModule).map (·.indent) :=
+  indentation_matches_token_lines_supported exModule exModule_supported (by decide +kernel) (by decide +kernel)
 
 end Genshi.Props.C13
